@@ -58,6 +58,16 @@ def _layouts(r, f, P, name, sig, case, fam, th):
         r.violation(f'{sig}:{name}:argument-reuse', f'{fam} theta={th}: {name} '
                     f'{"modified its argument" if not np.array_equal(same, P) else "answers differently the second time"} '
                     f'when the same array object is evaluated twice', case=case)
+    ro = P.copy()                            # a read-only batch (what DataFrame.to_numpy() hands out): same answer, no error
+    ro.flags.writeable = False
+    try:
+        ans_ro = np.asarray(f(ro), float)
+        if not np.array_equal(ans_ro, full, equal_nan=True):
+            r.violation(f'{sig}:{name}:read-only-input', f'{fam} theta={th}: {name} of a read-only array differs from the same '
+                        f'values in a writeable array', case=case)
+    except Exception as e:
+        r.violation(f'{sig}:{name}:read-only-input:raises', f'{fam} theta={th}: {name} of a read-only array raised '
+                    f'{type(e).__name__}: {e}', case=case)
     keep = f(P.copy())                       # a returned result is a value: later calls must not rewrite it
     kept = np.array(keep, float)
     same[:] = P[::-1]                        # the same object refilled in place: the answer is a function of the values
